@@ -31,6 +31,18 @@ ScriptNest == << [op |-> "cif_create", cif |-> "c1"],
                  [op |-> "container_free", cont |-> "h2"],
                  [op |-> "create_loop", cont |-> "h1", category |-> "k", names |-> <<"_x">>],
                  [op |-> "loop_add_packet", loop |-> "l1", packet |-> << <<"_x", "s2">> >>] >>
+\* ScriptLoop1 with an iterator opened on the scalar loop l2: l1 is then "another loop of the same CIF"
+ScriptBusy == ScriptLoop1 \o << [op |-> "get_packets", loop |-> "l2"] >>
+\* ... and with the iterator on the two-item loop l1 (one packet), l2 being the other loop
+ScriptBusy1 == ScriptLoop1 \o << [op |-> "get_packets", loop |-> "l1"] >>
+\* two blocks whose loops carry the same per-container loop number: an empty loop in a, a one-packet loop in b
+\* (anything keyed by loop number alone would confuse the two)
+ScriptTwin == << [op |-> "cif_create", cif |-> "c1"],
+                 [op |-> "create_block", cif |-> "c1", code |-> "a"],
+                 [op |-> "create_block", cif |-> "c1", code |-> "b"],
+                 [op |-> "create_loop", cont |-> "h1", category |-> "k", names |-> <<"_x">>],
+                 [op |-> "create_loop", cont |-> "h2", category |-> "k", names |-> <<"_x">>],
+                 [op |-> "loop_add_packet", loop |-> "l2", packet |-> << <<"_x", "s1">> >>] >>
 MCCSlots2 == <<"h1", "h2">>
 MCLSlots2 == <<"l1", "l2">>
 MCCSlots1 == <<"h1">>
